@@ -8,7 +8,7 @@
    5. termini: assign_termini / set_termini flag each chain end exactly once
       (for ALL chain lists; see the section header for what is proved with hidden
       chain ends) *)
-From Coq Require Import List Bool ZArith PArith String Ascii Arith Lia.
+From Coq Require Import List Bool ZArith PArith String Ascii Arith Lia Permutation.
 From PV Require Import Lib.Decimal Model.ForceField Model.States.
 Import ListNotations.
 
@@ -710,8 +710,40 @@ Proof.
 Qed.
 
 (* -- set_termini in general (hidden chain ends included) -- *)
-Definition inv (c : list rstate) : Prop :=
-  Forall kind_ok c /\ Forall (fun r => nflag r = false) (tl c).
+
+(* the patch a residue receives with a flag is a function of options and descriptor *)
+Definition npatch (o : opts) (r : rstate) : patch :=
+  if o_neutraln o || rd_nheavy2 (rs_d r) then P_NEUTRAL_NTERM else P_NTERM.
+Definition cpatch (o : opts) : patch := if o_neutralc o then P_NEUTRAL_CTERM else P_CTERM.
+
+(* the SET of patches is determined by the flags (the list may repeat them) *)
+Definition patch_set_ok (o : opts) (r : rstate) : Prop :=
+  forall p, In p (rs_patches r) <->
+    (rs_n r = true /\ p = npatch o r) \/ (rs_c r = true /\ p = cpatch o) \/
+    (rs_5 r = true /\ p = P_5TERM) \/ (rs_3 r = true /\ p = P_3TERM).
+
+Definition cclear (r : rstate) : Prop := cflag r = false.
+
+(* over the REVERSED segment: a C/3' flag can only sit on the first polymer residue met from
+   the end, and only if no NH2/NME cap comes before it *)
+Fixpoint c_ok (l : list rstate) : Prop :=
+  match l with
+  | [] => True
+  | r :: t => if is_poly r then Forall cclear t
+              else cflag r = false /\ (if rd_cap (rs_d r) then Forall cclear t else c_ok t)
+  end.
+
+Definition hd_nflag (c : list rstate) : bool := match c with [] => false | r :: _ => nflag r end.
+
+(* what holds of EVERY chain segment set_termini produces *)
+Definition seg_ok (o : opts) (c : list rstate) : Prop :=
+  Forall kind_ok c /\ Forall (patch_set_ok o) c /\
+  Forall (fun r => nflag r = false) (tl c) /\ c_ok (rev c).
+
+(* a segment that is not cyclic has its ends flagged *)
+Definition seg_full (close : nat -> nat -> bool) (c : list rstate) : Prop :=
+  cyclic close c = false ->
+  hd_nflag c = head_poly c /\ count cflag c = b2n (has_c_end c).
 
 Lemma setN_kind o r : kind_ok r -> kind_ok (setN o r) /\ rs_d (setN o r) = rs_d r.
 Proof.
@@ -724,140 +756,378 @@ Proof.
   - split; [|reflexivity]. unfold kind_ok. rewrite K. split; assumption.
 Qed.
 
+Lemma setN_cflag o r : cflag (setN o r) = cflag r.
+Proof. unfold setN, cflag. destruct (rd_kind (rs_d r)); reflexivity. Qed.
+
+Lemma setN_nflag o r : kind_ok r -> nflag (setN o r) = is_poly r.
+Proof.
+  intros [K1 K2]. unfold setN, is_poly, nflag. destruct (rd_kind (rs_d r)) eqn:K; cbn [rs_n rs_5].
+  - reflexivity.
+  - apply orb_true_r.
+  - destruct (rs_n r) eqn:A; [assert (X : KWater = KAmino) by (apply K1; left; reflexivity); discriminate X|].
+    destruct (rs_5 r) eqn:B; [assert (X : KWater = KNucleic) by (apply K2; left; reflexivity); discriminate X|]. reflexivity.
+  - destruct (rs_n r) eqn:A; [assert (X : KOther = KAmino) by (apply K1; left; reflexivity); discriminate X|].
+    destruct (rs_5 r) eqn:B; [assert (X : KOther = KNucleic) by (apply K2; left; reflexivity); discriminate X|]. reflexivity.
+Qed.
+
+Lemma in_snoc {A} (l : list A) (x p : A) : In p (l ++ [x]) <-> In p l \/ p = x.
+Proof. rewrite in_app_iff. cbn [In]. intuition. Qed.
+
+Lemma setN_ps o r : patch_set_ok o r -> patch_set_ok o (setN o r).
+Proof.
+  intro H. unfold setN. destruct (rd_kind (rs_d r)) eqn:K; try exact H.
+  - intro p. unfold patch_set_ok in H. cbn [rs_patches rs_n rs_c rs_5 rs_3].
+    change (npatch o (mkrs (rs_d r) true (rs_c r) (rs_5 r) (rs_3 r) (rs_patches r ++ [if o_neutraln o || rd_nheavy2 (rs_d r) then P_NEUTRAL_NTERM else P_NTERM]) (rs_chain r))) with (npatch o r).
+    rewrite in_snoc, (H p). fold (npatch o r). intuition.
+  - intro p. unfold patch_set_ok in H. cbn [rs_patches rs_n rs_c rs_5 rs_3].
+    change (npatch o (mkrs (rs_d r) (rs_n r) (rs_c r) true (rs_3 r) (rs_patches r ++ [P_5TERM]) (rs_chain r))) with (npatch o r).
+    rewrite in_snoc, (H p). intuition.
+Qed.
+
+Lemma c_scan_ps o : forall l, Forall (patch_set_ok o) l -> Forall (patch_set_ok o) (c_scan o l).
+Proof.
+  induction l as [|r t IH]; intro H; [constructor|]. inversion H as [|? ? Pr Pt]; subst.
+  cbn [c_scan]. unfold c_action. destruct (rd_kind (rs_d r)) eqn:K.
+  - constructor; [|exact Pt]. intro p. unfold patch_set_ok in Pr. cbn [rs_patches rs_n rs_c rs_5 rs_3].
+    change (npatch o (mkrs (rs_d r) (rs_n r) true (rs_5 r) (rs_3 r) (rs_patches r ++ [if o_neutralc o then P_NEUTRAL_CTERM else P_CTERM]) (rs_chain r))) with (npatch o r).
+    rewrite in_snoc, (Pr p). fold (cpatch o). intuition.
+  - constructor; [|exact Pt]. intro p. unfold patch_set_ok in Pr. cbn [rs_patches rs_n rs_c rs_5 rs_3].
+    change (npatch o (mkrs (rs_d r) (rs_n r) (rs_c r) (rs_5 r) true (rs_patches r ++ [P_3TERM]) (rs_chain r))) with (npatch o r).
+    rewrite in_snoc, (Pr p). intuition.
+  - destruct (rd_cap (rs_d r)); constructor; try assumption. apply IH; assumption.
+  - destruct (rd_cap (rs_d r)); constructor; try assumption. apply IH; assumption.
+Qed.
+
+Lemma setC_ps o l : Forall (patch_set_ok o) l -> Forall (patch_set_ok o) (setC o l).
+Proof. intro H. unfold setC. apply Forall_rev. apply c_scan_ps. apply Forall_rev. exact H. Qed.
+
+(* -- the C flag position -- *)
+Lemma c_ok_clear : forall l, Forall cclear l -> c_ok l.
+Proof.
+  induction l as [|r t IH]; intro H; [exact I|]. inversion H as [|? ? Hr Ht]; subst. cbn [c_ok].
+  destruct (is_poly r); [exact Ht|]. split; [exact Hr|]. destruct (rd_cap (rs_d r)); [exact Ht | apply IH; exact Ht].
+Qed.
+
+Lemma c_ok_prefix : forall a b, c_ok (a ++ b) -> c_ok a.
+Proof.
+  induction a as [|r a IH]; intros b H; [exact I|]. cbn [app c_ok] in *.
+  destruct (is_poly r).
+  - apply Forall_app in H. apply H.
+  - destruct H as [Hr H]. split; [exact Hr|]. destruct (rd_cap (rs_d r)).
+    + apply Forall_app in H. apply H.
+    + apply (IH b). exact H.
+Qed.
+
+Lemma c_ok_after : forall p r s, c_ok (p ++ r :: s) -> is_poly r = true -> Forall cclear s.
+Proof.
+  induction p as [|x p IH]; intros r s H Hr; cbn [app c_ok] in H.
+  - rewrite Hr in H. exact H.
+  - destruct (is_poly x).
+    + apply Forall_app in H. destruct H as [_ H]. inversion H; assumption.
+    + destruct H as [_ H]. destruct (rd_cap (rs_d x)).
+      * apply Forall_app in H. destruct H as [_ H]. inversion H; assumption.
+      * apply (IH r s H Hr).
+Qed.
+
+Lemma c_ok_ext : forall a b, map (fun r => (cflag r, rs_d r)) a = map (fun r => (cflag r, rs_d r)) b ->
+  c_ok a -> c_ok b.
+Proof.
+  induction a as [|x a IH]; destruct b as [|y b]; cbn [map]; intros E H; try discriminate; [exact I|].
+  injection E as Ec Ed Et. cbn [c_ok] in *. rewrite <- (is_poly_d x y Ed), <- Ed, <- Ec.
+  assert (CT : Forall cclear a -> Forall cclear b).
+  { intro Ha. clear - Ha Et. revert b Et. induction Ha as [|z a Hz Ha IHa]; intros b Et; destruct b as [|w b]; cbn [map] in Et; try discriminate; [constructor|].
+    injection Et as E1 _ E3. constructor; [unfold cclear in *; rewrite <- E1; exact Hz | apply IHa; exact E3]. }
+  destruct (is_poly x); [apply CT; exact H|]. destruct H as [Hx H]. split; [exact Hx|].
+  destruct (rd_cap (rs_d x)); [apply CT; exact H | apply (IH b Et H)].
+Qed.
+
+Lemma c_scan_c_ok o : forall l, c_ok l -> c_ok (c_scan o l).
+Proof.
+  induction l as [|r t IH]; intro H; [exact I|]. cbn [c_scan]. unfold c_action.
+  cbn [c_ok] in H. unfold is_poly in H. destruct (rd_kind (rs_d r)) eqn:K.
+  - cbn [c_ok]. unfold is_poly. cbn [rs_d]. rewrite K. exact H.
+  - cbn [c_ok]. unfold is_poly. cbn [rs_d]. rewrite K. exact H.
+  - destruct H as [Hr H]. destruct (rd_cap (rs_d r)) eqn:C; cbn [c_ok]; unfold is_poly; rewrite K, C; split; try assumption.
+    apply IH. exact H.
+  - destruct H as [Hr H]. destruct (rd_cap (rs_d r)) eqn:C; cbn [c_ok]; unfold is_poly; rewrite K, C; split; try assumption.
+    apply IH. exact H.
+Qed.
+
+Lemma c_scan_count_ok o : forall l, c_ok l -> count cflag (c_scan o l) = b2n (c_found l).
+Proof.
+  induction l as [|r t IH]; intro H; [reflexivity|]. cbn [c_scan c_found]. unfold c_action.
+  cbn [c_ok] in H. unfold is_poly in *. destruct (rd_kind (rs_d r)) eqn:K.
+  - rewrite count_cons. unfold cflag at 1. cbn [rs_c rs_3 orb]. rewrite (count_zero _ _ H). reflexivity.
+  - rewrite count_cons. unfold cflag at 1. cbn [rs_c rs_3]. rewrite orb_true_r. rewrite (count_zero _ _ H). reflexivity.
+  - destruct H as [Hr H]. destruct (rd_cap (rs_d r)).
+    + rewrite count_cons, Hr, (count_zero _ _ H). reflexivity.
+    + rewrite count_cons, Hr. cbn [b2n plus]. apply IH. exact H.
+  - destruct H as [Hr H]. destruct (rd_cap (rs_d r)).
+    + rewrite count_cons, Hr, (count_zero _ _ H). reflexivity.
+    + rewrite count_cons, Hr. cbn [b2n plus]. apply IH. exact H.
+Qed.
+
+Lemma c_ok_count : forall l, c_ok l -> count cflag l <= 1.
+Proof.
+  induction l as [|r t IH]; intro H; [cbn; lia|]. cbn [c_ok] in H. rewrite count_cons.
+  destruct (is_poly r).
+  - rewrite (count_zero _ _ H). destruct (cflag r); cbn; lia.
+  - destruct H as [Hr H]. rewrite Hr. cbn [b2n plus]. destruct (rd_cap (rs_d r)).
+    + rewrite (count_zero _ _ H). lia.
+    + apply IH. exact H.
+Qed.
+
 Lemma Forall_tl {A} (P : A -> Prop) l : Forall P l -> Forall P (tl l).
 Proof. intro H. destruct l; [constructor|]. inversion H; assumption. Qed.
 
-Lemma assign_inv : forall o close l l', inv l -> assign o close l = Some l' ->
-  map rs_d l' = map rs_d l /\ inv l'.
+Lemma hd_nflag_map a b : map nflag a = map nflag b -> hd_nflag a = hd_nflag b.
+Proof. destruct a, b; cbn [map]; intro H; try discriminate; [reflexivity|]. injection H as H _. exact H. Qed.
+
+(* -- assign_termini on ANY segment satisfying the invariant (re-application included) -- *)
+Lemma assign_seg : forall o close l l', seg_ok o l -> assign o close l = Some l' ->
+  map rs_d l' = map rs_d l /\ seg_ok o l' /\ seg_full close l'.
 Proof.
-  intros o close l l' [HK HT] H. unfold assign in H. destruct l as [|r0 t]; [discriminate|].
-  destruct (cyclic close (r0 :: t)).
-  - inversion H; subst. split; [reflexivity | split; assumption].
+  intros o close l l' [HK [HP [HT HC]]] H. unfold assign in H. destruct l as [|r0 t]; [discriminate|].
+  destruct (cyclic close (r0 :: t)) eqn:Cy.
+  - inversion H; subst. split; [reflexivity|]. split; [repeat split; assumption|].
+    intro E. rewrite Cy in E. discriminate E.
   - inversion H as [E]. clear H. cbn [upd_head]. inversion HK as [|? ? K0 Kt]; subst.
-    destruct (setN_kind o r0 K0) as [Sk Sd]. cbn [tl] in HT.
-    split; [|split].
-    + rewrite setC_d. cbn [map]. rewrite Sd. reflexivity.
-    + apply setC_kind. constructor; assumption.
-    + pose proof (setC_nflag o (setN o r0 :: t)) as NF.
-      destruct (setC o (setN o r0 :: t)) as [|x xs]; [constructor|]. cbn [tl map] in *.
-      injection NF as _ Hxs. apply (map_eq_Forall nflag xs t Hxs (fun b => b = false)). exact HT.
+    inversion HP as [|? ? P0 Pt]; subst. cbn [tl] in HT.
+    destruct (setN_kind o r0 K0) as [Sk Sd].
+    set (l1 := setN o r0 :: t).
+    assert (D1 : map rs_d l1 = map rs_d (r0 :: t)) by (unfold l1; cbn [map]; rewrite Sd; reflexivity).
+    assert (Dall : map rs_d (setC o l1) = map rs_d (r0 :: t)) by (rewrite setC_d; exact D1).
+    assert (NF : map nflag (setC o l1) = map nflag l1) by apply setC_nflag.
+    assert (C1 : c_ok (rev l1)).
+    { apply (c_ok_ext (rev (r0 :: t))); [|exact HC]. rewrite !map_rev. f_equal. unfold l1. cbn [map].
+      rewrite setN_cflag, Sd. reflexivity. }
+    split; [exact Dall|]. split.
+    + split; [|split; [|split]].
+      * apply setC_kind. constructor; assumption.
+      * apply setC_ps. constructor; [apply setN_ps; exact P0 | exact Pt].
+      * destruct (setC o l1) as [|x xs]; [constructor|]. unfold l1 in NF. cbn [tl map] in *.
+        injection NF as _ Hxs. apply (map_eq_Forall nflag xs t Hxs (fun b => b = false)). exact HT.
+      * unfold setC. rewrite rev_involutive. apply c_scan_c_ok. exact C1.
+    + intros _. split.
+      * rewrite (hd_nflag_map _ _ NF). rewrite (head_poly_d _ _ Dall). unfold l1. cbn [hd_nflag head_poly].
+        apply setN_nflag. exact K0.
+      * unfold setC. rewrite count_rev. rewrite (c_scan_count_ok o _ C1).
+        change (c_found (rev l1)) with (has_c_end l1).
+        fold (setC o l1). rewrite (has_c_end_d _ _ Dall). rewrite (has_c_end_d _ _ D1). reflexivity.
 Qed.
 
-Lemma inv_map g c : (forall r, same_core (g r) r) -> inv c -> inv (map g c).
+Lemma seg_ok_map o g c : (forall r, same_core (g r) r) -> seg_ok o c -> seg_ok o (map g c).
 Proof.
-  intros Hg [HK HT]. split.
+  intros Hg [HK [HP [HT HC]]]. split; [|split; [|split]].
   - apply Forall_map. eapply Forall_impl; [|exact HK]. intros r [K1 K2].
     destruct (Hg r) as [Ed [En [Ec [E5 [E3 _]]]]]. unfold kind_ok. rewrite Ed, En, Ec, E5, E3. split; assumption.
+  - apply Forall_map. eapply Forall_impl; [|exact HP]. intros r Hr p.
+    destruct (Hg r) as [Ed [En [Ec [E5 [E3 Ep]]]]]. unfold npatch. rewrite Ed, En, Ec, E5, E3, Ep. apply (Hr p).
   - destruct c as [|x c]; [constructor|]. cbn [map tl] in *. apply Forall_map.
     eapply Forall_impl; [|exact HT]. intros r Hr. cbn beta.
     destruct (Hg r) as [_ [En [_ [E5 _]]]]. unfold nflag in *. rewrite En, E5. exact Hr.
+  - apply (c_ok_ext (rev c)); [|exact HC]. rewrite !map_rev. f_equal. rewrite map_map. apply map_ext.
+    intro r. destruct (Hg r) as [Ed [_ [Ec [_ [E3 _]]]]]. unfold cflag. rewrite Ed, Ec, E3. reflexivity.
 Qed.
 
-Lemma inv_split : forall (a : list rstate) r b, inv ((a ++ [r]) ++ b) ->
-  inv (a ++ [r]) /\ Forall kind_ok b /\ Forall (fun x => nflag x = false) b.
+Lemma seg_full_map close g c : (forall r, same_core (g r) r) -> seg_full close c -> seg_full close (map g c).
 Proof.
-  intros a r b [HK HT]. apply Forall_app in HK. destruct HK as [HK1 HK2].
-  destruct a as [|x a]; cbn [app tl] in *.
-  - repeat split; try assumption. constructor.
-  - apply Forall_app in HT. destruct HT as [HT1 HT2]. repeat split; assumption.
+  intros Hg H.
+  assert (Gn : forall r, nflag (g r) = nflag r).
+  { intro r. destruct (Hg r) as [_ [A [_ [B _]]]]. unfold nflag. rewrite A, B. reflexivity. }
+  assert (Gc : forall r, cflag (g r) = cflag r).
+  { intro r. destruct (Hg r) as [_ [_ [A [_ [B _]]]]]. unfold cflag. rewrite A, B. reflexivity. }
+  assert (D : map rs_d (map g c) = map rs_d c).
+  { rewrite map_map. apply map_ext. intro r. apply (Hg r). }
+  unfold seg_full in *. rewrite (cyclic_d close _ _ D). intro Cy. destruct (H Cy) as [H1 H2].
+  rewrite (count_map cflag g c Gc), (head_poly_d _ _ D), (has_c_end_d _ _ D). split; [|exact H2].
+  rewrite <- H1. destruct c; [reflexivity|]. cbn [map hd_nflag]. apply Gn.
 Qed.
 
-Lemma scan_inv : forall fuel o close keys acc rest k segs fin,
+Lemma fixflag_poly r : fixflag r = true -> is_poly r = true.
+Proof. unfold fixflag, is_poly. destruct (rd_kind (rs_d r)); intro H; try reflexivity; discriminate H. Qed.
+
+Lemma seg_split : forall o (a : list rstate) r b, seg_ok o ((a ++ [r]) ++ b) -> is_poly r = true ->
+  seg_ok o (a ++ [r]) /\ seg_ok o b.
+Proof.
+  intros o a r b [HK [HP [HT HC]]] Hr.
+  apply Forall_app in HK. destruct HK as [HK1 HK2]. apply Forall_app in HP. destruct HP as [HP1 HP2].
+  rewrite rev_app_distr in HC. rewrite (rev_app_distr a [r]) in HC. cbn [rev app] in HC.
+  assert (Nb : Forall (fun x => nflag x = false) b /\ Forall (fun x => nflag x = false) (tl (a ++ [r]))).
+  { destruct a as [|x a]; cbn [app tl] in *.
+    - split; [exact HT | constructor].
+    - apply Forall_app in HT. destruct HT as [HT1 HT2]. split; assumption. }
+  destruct Nb as [Nb Na]. split.
+  - split; [exact HK1|]. split; [exact HP1|]. split; [exact Na|].
+    rewrite rev_app_distr. cbn [rev app c_ok]. rewrite Hr.
+    apply (c_ok_after (rev b) r (rev a) HC Hr).
+  - split; [exact HK2|]. split; [exact HP2|]. split; [apply Forall_tl; exact Nb|].
+    apply (c_ok_prefix (rev b) (r :: rev a)). exact HC.
+Qed.
+
+Lemma scan_seg : forall fuel o close keys acc rest k segs fin,
   scan fuel o close keys acc rest = Done (k, segs, fin) ->
-  inv (acc ++ rest) ->
+  seg_ok o (acc ++ rest) -> seg_full close (acc ++ rest) ->
   (List.concat (map (map rs_d) segs) ++ map rs_d fin)%list = map rs_d (acc ++ rest) /\
-  Forall inv segs /\ inv fin.
+  Forall (seg_ok o) segs /\ seg_ok o fin /\ Forall (seg_full close) segs /\ seg_full close fin.
 Proof.
-  induction fuel as [|f IH]; intros o close keys acc rest k segs fin H I; [discriminate|].
+  induction fuel as [|f IH]; intros o close keys acc rest k segs fin H I Fu; [discriminate|].
   cbn [scan] in H. destruct rest as [|r rest'].
-  - inversion H; subst. rewrite app_nil_r in *. cbn. repeat split; try apply I. constructor.
+  - inversion H; subst. rewrite app_nil_r in *. cbn [map List.concat app].
+    split; [reflexivity|]. split; [constructor|]. split; [exact I|]. split; [constructor | exact Fu].
   - assert (EA : (acc ++ r :: rest' = (acc ++ [r]) ++ rest')%list) by (rewrite <- app_assoc; reflexivity).
-    rewrite EA in I. rewrite EA.
-    destruct (fixflag r).
+    rewrite EA in I, Fu. rewrite EA.
+    destruct (fixflag r) eqn:FF.
     + destruct (fresh keys) as [cid|]; [|discriminate].
       destruct (assign o close rest') as [rest''|] eqn:A1;
         destruct (assign o close (map (set_chain (first_char cid)) (acc ++ [r]))) as [newc'|] eqn:A2;
         try discriminate.
       destruct (scan f o close (cid :: keys) [] rest'') as [[[k' segs'] fin']| |] eqn:S; try discriminate.
       inversion H; subst. clear H.
-      destruct (inv_split acc r rest' I) as [I1 [K2 N2]].
-      assert (I1' : inv (map (set_chain (first_char cid)) (acc ++ [r]))).
-      { apply inv_map; [intro x; apply set_chain_core | exact I1]. }
-      destruct (assign_inv o close _ _ I1' A2) as [D2 J2].
-      assert (I2 : inv rest') by (split; [exact K2 | apply Forall_tl; exact N2]).
-      destruct (assign_inv o close _ _ I2 A1) as [D1 J1].
-      destruct (IH o close (cid :: keys) [] rest'' k segs' fin S J1) as [R [F1 F2]].
-      cbn [app] in R. split; [|split; [constructor; assumption | exact F2]].
+      destruct (seg_split o acc r rest' I (fixflag_poly r FF)) as [I1 I2].
+      assert (I1' : seg_ok o (map (set_chain (first_char cid)) (acc ++ [r]))).
+      { apply seg_ok_map; [intro x; apply set_chain_core | exact I1]. }
+      destruct (assign_seg o close _ _ I1' A2) as [D2 [J2 G2]].
+      destruct (assign_seg o close _ _ I2 A1) as [D1 [J1 G1]].
+      destruct (IH o close (cid :: keys) [] rest'' k segs' fin S J1 G1) as [R [F1 [F2 [F3 F4]]]].
+      cbn [app] in R. split; [|split; [constructor; assumption|split; [exact F2|split; [constructor; assumption|exact F4]]]].
       cbn [map List.concat]. rewrite <- app_assoc, R, D1, D2.
       rewrite (map_app rs_d (acc ++ [r]) rest'). rewrite map_map. f_equal.
-    + apply (IH o close keys (acc ++ [r])%list rest' k segs fin H I).
+    + apply (IH o close keys (acc ++ [r])%list rest' k segs fin H I Fu).
 Qed.
 
-Lemma scan_all_inv : forall cs o close keys k out,
-  scan_all o close keys cs = Done (k, out) -> Forall inv cs ->
-  List.concat (map (map rs_d) out) = List.concat (map (map rs_d) cs) /\ Forall inv out.
+Lemma scan_all_seg : forall cs o close keys k out,
+  scan_all o close keys cs = Done (k, out) -> Forall (seg_ok o) cs -> Forall (seg_full close) cs ->
+  List.concat (map (map rs_d) out) = List.concat (map (map rs_d) cs) /\
+  Forall (seg_ok o) out /\ Forall (seg_full close) out.
 Proof.
-  induction cs as [|c cs IH]; intros o close keys k out H I; cbn [scan_all] in H.
-  - inversion H; subst. split; [reflexivity|constructor].
-  - inversion I as [|? ? Ic Ics]; subst.
+  induction cs as [|c cs IH]; intros o close keys k out H I Fu; cbn [scan_all] in H.
+  - inversion H; subst. repeat split; constructor.
+  - inversion I as [|? ? Ic Ics]; subst. inversion Fu as [|? ? Fc Fcs]; subst.
     destruct (scan (S (List.length c)) o close keys [] c) as [[[k1 segs] fin]| |] eqn:S; try discriminate.
     destruct (scan_all o close k1 cs) as [[k2 out']| |] eqn:S2; try discriminate.
     inversion H; subst. clear H.
-    destruct (scan_inv _ _ _ _ _ _ _ _ _ S Ic) as [R [F1 F2]]. cbn [app] in R.
-    destruct (IH o close k1 k out' S2 Ics) as [R2 F3].
-    split.
-    + change (segs ++ [fin] ++ out')%list with (segs ++ fin :: out')%list.
-      rewrite map_app, concat_app. cbn [map List.concat]. rewrite R2.
+    destruct (scan_seg _ _ _ _ _ _ _ _ _ S Ic Fc) as [R [F1 [F2 [F3 F4]]]]. cbn [app] in R.
+    destruct (IH o close k1 k out' S2 Ics Fcs) as [R2 [F5 F6]].
+    change (segs ++ [fin] ++ out')%list with (segs ++ fin :: out')%list.
+    split; [|split].
+    + rewrite map_app, concat_app. cbn [map List.concat]. rewrite R2.
       rewrite app_assoc, R. reflexivity.
     + apply Forall_app. split; [exact F1|]. constructor; assumption.
+    + apply Forall_app. split; [exact F3|]. constructor; assumption.
 Qed.
 
-Lemma phase1_inv : forall o close chains cs1,
+Lemma fresh_seg_ok o cid ds : seg_ok o (map (fresh_res cid) ds).
+Proof.
+  pose proof (fresh_unflagged cid ds) as U. split; [|split; [|split]].
+  - eapply Forall_impl; [|exact U]. intros a Ha. apply unflagged_kind. exact Ha.
+  - apply Forall_map. apply Forall_forall. intros d _ p. unfold fresh_res. cbn [rs_patches rs_n rs_c rs_5 rs_3 In].
+    split; [intros [] | intros [[X _]|[[X _]|[[X _]|[X _]]]]; discriminate X].
+  - apply Forall_tl. eapply Forall_impl; [|exact U]. intros a [Ha _]. exact Ha.
+  - apply c_ok_clear. apply Forall_rev. eapply Forall_impl; [|exact U]. intros a Ha. apply unflagged_c. exact Ha.
+Qed.
+
+Lemma phase1_seg : forall o close chains cs1,
   assign_all o close (map (fun c => map (fresh_res (fst c)) (snd c)) chains) = Some cs1 ->
-  List.concat (map (map rs_d) cs1) = List.concat (map snd chains) /\ Forall inv cs1.
+  List.concat (map (map rs_d) cs1) = List.concat (map snd chains) /\
+  Forall (seg_ok o) cs1 /\ Forall (seg_full close) cs1.
 Proof.
   induction chains as [|ch chains IH]; intros cs1 H; cbn [map assign_all] in H.
-  - inversion H; subst. split; [reflexivity|constructor].
+  - inversion H; subst. repeat split; constructor.
   - destruct (assign o close (map (fresh_res (fst ch)) (snd ch))) as [c1|] eqn:Hc; [|discriminate].
     destruct (assign_all o close (map (fun c => map (fresh_res (fst c)) (snd c)) chains)) as [r'|] eqn:E2; [|discriminate].
     inversion H; subst. clear H.
-    assert (If : inv (map (fresh_res (fst ch)) (snd ch))).
-    { pose proof (fresh_unflagged (fst ch) (snd ch)) as U. split.
-      - eapply Forall_impl; [|exact U]. intros a Ha. apply unflagged_kind. exact Ha.
-      - apply Forall_tl. eapply Forall_impl; [|exact U]. intros a [Ha _]. exact Ha. }
-    destruct (assign_inv o close _ c1 If Hc) as [D J]. rewrite fresh_d in D.
-    destruct (IH r' eq_refl) as [R F].
-    split; [cbn [map List.concat]; rewrite D, R; reflexivity | constructor; assumption].
+    destruct (assign_seg o close _ c1 (fresh_seg_ok o (fst ch) (snd ch)) Hc) as [D [J G]]. rewrite fresh_d in D.
+    destruct (IH r' eq_refl) as [R [F1 F2]].
+    split; [cbn [map List.concat]; rewrite D, R; reflexivity | split; constructor; assumption].
 Qed.
 
-(* for ALL chain lists: no residue is lost, duplicated or moved by the chain
-   splitting; only the head of an output chain can carry an N/5' flag; N/C flags
-   sit on amino acids only and 5'/3' flags on nucleotides only *)
+(* for ALL chain lists, hidden chain ends included: residues are neither lost, duplicated nor
+   moved by the splitting; every resulting segment satisfies seg_ok (at most one N/5' flag, on
+   its head; at most one C/3' flag, on its last polymer residue not hidden by a cap; flags
+   respect the residue kind; the patch SET is the function of the flags) and seg_full (a
+   non-cyclic segment has both ends flagged, as far as they exist) *)
 Theorem termini_general : forall o close chains out,
   termini o close chains = Done out ->
   List.concat (map (map rs_d) out) = List.concat (map snd chains) /\
-  Forall (fun c => Forall kind_ok c /\ Forall (fun r => nflag r = false) (tl c)) out.
+  Forall (seg_ok o) out /\ Forall (seg_full close) out.
 Proof.
   intros o close chains out H. unfold termini in H.
   destruct (assign_all o close (map (fun c => map (fresh_res (fst c)) (snd c)) chains)) as [cs1|] eqn:E1; [|discriminate].
-  pose proof (phase1_inv o close chains cs1 E1) as Base.
-  destruct Base as [R F].
+  destruct (phase1_seg o close chains cs1 E1) as [R [F G]].
   destruct (scan_all o close (map fst chains) cs1) as [[keys out0]| |] eqn:S; try discriminate.
-  destruct (scan_all_inv cs1 o close _ keys out0 S F) as [R2 F2].
+  destruct (scan_all_seg cs1 o close _ keys out0 S F G) as [R2 [F2 G2]].
   unfold rename_blank in H.
-  assert (Fin : forall o1, List.concat (map (map rs_d) o1) = List.concat (map (map rs_d) out0) -> Forall inv o1 ->
+  assert (Fin : forall o1, List.concat (map (map rs_d) o1) = List.concat (map (map rs_d) out0) ->
+            Forall (seg_ok o) o1 -> Forall (seg_full close) o1 ->
             List.concat (map (map rs_d) o1) = List.concat (map snd chains) /\
-            Forall (fun c => Forall kind_ok c /\ Forall (fun r => nflag r = false) (tl c)) o1).
-  { intros o1 E I. split; [rewrite E, R2, R; reflexivity | exact I]. }
-  destruct (mem_string EmptyString keys); [|inversion H; subst; apply Fin; [reflexivity|exact F2]].
-  destruct (forallb is_water (last out0 [])); [inversion H; subst; apply Fin; [reflexivity|exact F2]|].
+            Forall (seg_ok o) o1 /\ Forall (seg_full close) o1).
+  { intros o1 E I1 I2. split; [rewrite E, R2, R; reflexivity | split; assumption]. }
+  destruct (mem_string EmptyString keys); [|inversion H; subst; apply Fin; [reflexivity|exact F2|exact G2]].
+  destruct (forallb is_water (last out0 [])); [inversion H; subst; apply Fin; [reflexivity|exact F2|exact G2]|].
   destruct (fresh keys) as [cid|]; [|discriminate]. inversion H; subst. clear H.
   set (g := fun r => if String.eqb (rs_chain r) EmptyString then set_chain (first_char cid) r else r).
   assert (Hg : forall r, same_core (g r) r).
   { intro r. unfold g. destruct (String.eqb (rs_chain r) EmptyString); [apply set_chain_core | apply same_core_refl]. }
   apply Fin.
   - f_equal. rewrite map_map. apply map_ext. intro c. rewrite map_map. apply map_ext. intro r. apply (Hg r).
-  - apply Forall_map. eapply Forall_impl; [|exact F2]. intros c Ic. apply inv_map; assumption.
+  - apply Forall_map. eapply Forall_impl; [|exact F2]. intros c Ic. apply seg_ok_map; assumption.
+  - apply Forall_map. eapply Forall_impl; [|exact G2]. intros c Ic. apply seg_full_map; assumption.
+Qed.
+
+(* readable consequences of seg_ok *)
+Theorem seg_ok_at_most_one : forall o c, seg_ok o c -> count nflag c <= 1 /\ count cflag c <= 1.
+Proof.
+  intros o c [_ [_ [HT HC]]]. split.
+  - destruct c as [|r t]; [cbn; lia|]. cbn [tl] in HT. rewrite count_cons, (count_zero _ _ HT).
+    destruct (nflag r); cbn; lia.
+  - rewrite <- count_rev. apply c_ok_count. exact HC.
+Qed.
+
+Lemma patch_eqb_eq a b : patch_eqb a b = true -> a = b.
+Proof. destruct a, b; cbn; intro H; try reflexivity; discriminate H. Qed.
+
+Lemma has_patch_In p d : has_patch p d = true <-> In p (ad_patches d).
+Proof.
+  unfold has_patch. rewrite existsb_exists. split.
+  - intros [x [Hi He]]. apply patch_eqb_eq in He. subst. exact Hi.
+  - intro Hi. exists p. split; [exact Hi|]. destruct p; reflexivity.
+Qed.
+
+(* the terminus STATE in the name is a function of flags, options and descriptor; how often
+   a patch was applied does not matter *)
+Definition term_prefix (o : opts) (cls : aclass) (r : rstate) : prefix :=
+  if rs_n r then match cls with
+                 | C_PRO => PN
+                 | _ => if o_neutraln o || rd_nheavy2 (rs_d r) then PNN else PN
+                 end
+  else if rs_c r then (if o_neutralc o then PNC else PC)
+  else PNone.
+
+Theorem state_from_flags : forall o r d,
+  patch_set_ok o r -> rd_kind (rs_d r) = KAmino -> kind_ok r ->
+  ad_nterm d = rs_n r -> ad_cterm d = rs_c r -> ad_patches d = rs_patches r ->
+  spec_prefix d = term_prefix o (ad_cls d) r.
+Proof.
+  intros o r d HP KA [K1 K2] En Ec Ep. unfold spec_prefix, term_prefix. rewrite En, Ec.
+  assert (N5 : rs_5 r = false).
+  { destruct (rs_5 r) eqn:E; [|reflexivity]. assert (X : rd_kind (rs_d r) = KNucleic) by (apply K2; left; reflexivity). rewrite KA in X. discriminate X. }
+  assert (N3 : rs_3 r = false).
+  { destruct (rs_3 r) eqn:E; [|reflexivity]. assert (X : rd_kind (rs_d r) = KNucleic) by (apply K2; right; reflexivity). rewrite KA in X. discriminate X. }
+  assert (HN : has_patch P_NEUTRAL_NTERM d = true <-> (rs_n r = true /\ P_NEUTRAL_NTERM = npatch o r) \/ (rs_c r = true /\ P_NEUTRAL_NTERM = cpatch o)).
+  { rewrite has_patch_In, Ep, (HP P_NEUTRAL_NTERM), N5, N3. intuition; discriminate. }
+  assert (HC : has_patch P_NEUTRAL_CTERM d = true <-> (rs_n r = true /\ P_NEUTRAL_CTERM = npatch o r) \/ (rs_c r = true /\ P_NEUTRAL_CTERM = cpatch o)).
+  { rewrite has_patch_In, Ep, (HP P_NEUTRAL_CTERM), N5, N3. intuition; discriminate. }
+  unfold npatch, cpatch in *.
+  destruct (rs_n r).
+  - destruct (ad_cls d); try reflexivity;
+      destruct (o_neutraln o || rd_nheavy2 (rs_d r)); destruct (has_patch P_NEUTRAL_NTERM d) eqn:E; try reflexivity; exfalso.
+    all: try (destruct HN as [_ HN]; assert (X : true = true) by reflexivity; rewrite <- HN in X at 1; [discriminate X | left; split; reflexivity]).
+    all: try (destruct HN as [HN _]; destruct (HN eq_refl) as [[_ X]|[_ X]]; [discriminate X | destruct (o_neutralc o); discriminate X]).
+  - destruct (rs_c r); [|reflexivity].
+    destruct (o_neutralc o); destruct (has_patch P_NEUTRAL_CTERM d) eqn:E; try reflexivity; exfalso.
+    + destruct HC as [_ HC]. assert (X : false = true) by (apply HC; right; split; reflexivity). discriminate X.
+    + destruct HC as [HC _]. destruct (HC eq_refl) as [[X _]|[_ X]]; discriminate X.
 Qed.
 
 (* ---------------------------------------------------------------------- *)
@@ -972,3 +1242,173 @@ Lemma ex_hidden_termini : show_termini (termini ex_opts (close_of []) ex_hidden)
   = "0:1000:NTERM+NTERM:B,1:0100:CTERM:B|2:1000:NTERM:A,3:0100:CTERM+CTERM:A".
 Proof. vm_compute. reflexivity. Qed.
 Local Close Scope string_scope.
+
+(* -- the one clause that FAILS with hidden chain ends: "a cyclic segment gets none" -- *)
+Local Open Scope string_scope.
+(* residues 0..2 closed head-to-tail (N of 0 next to C of 2) although 2 carries OXT, followed
+   by two more residues in the same chain: phase 1 flags 0 and 4 (the whole chain is not
+   cyclic), the split at 2 then finds the segment 0..2 cyclic and leaves it as it is *)
+Definition ex_cyc_split : list (string * list rdesc) :=
+  [("A", [amino_d 0 false; amino_d 1 false; amino_d 2 true; amino_d 3 false; amino_d 4 true])].
+
+Lemma ex_cyc_split_termini : show_termini (termini ex_opts (close_of [(0, 2)]) ex_cyc_split)
+  = "0:1000:NTERM:B,1:0000::B,2:0000::B|3:1000:NTERM:A,4:0100:CTERM+CTERM:A".
+Proof. vm_compute. reflexivity. Qed.
+Local Close Scope string_scope.
+
+Theorem cyclic_after_split_refuted :
+  exists o close chains out c, termini o close chains = Done out /\ In c out /\
+    cyclic close c = true /\ hd_nflag c = true /\ ~ Forall unflagged c.
+Proof.
+  exists ex_opts, (close_of [(0, 2)]), ex_cyc_split. eexists. eexists.
+  split; [vm_compute; reflexivity|]. split; [left; reflexivity|].
+  split; [vm_compute; reflexivity|]. split; [vm_compute; reflexivity|].
+  intro H. inversion H as [|? ? [X _] _]. vm_compute in X. discriminate X.
+Qed.
+
+(* ---------------------------------------------------------------------- *)
+(* 7. the integrality guard never fires on table states                    *)
+
+Local Open Scope Z_scope.
+
+Lemma round4_fix q : q mod 10000 = 0 -> round4 q = q.
+Proof. intro H. unfold round4. Z.div_mod_to_equations. lia. Qed.
+
+Lemma round4_map qs : Forall (fun q => q mod 10000 = 0) qs -> map round4 qs = qs.
+Proof. intro H. induction H as [|q qs Hq H IH]; [reflexivity|]. cbn [map]. rewrite (round4_fix q Hq), IH. reflexivity. Qed.
+
+Lemma zsum_perm : forall a b, Permutation a b -> zsum a = zsum b.
+Proof.
+  intros a b P. unfold zsum. induction P as [|x a b P IH|x y a|a b c P1 IH1 P2 IH2]; cbn [fold_right]; try lia.
+Qed.
+
+(* what a structure is made of, as far as charges go: amino-acid residues in a state row,
+   waters, complete strands; each with the exact charge of its residues *)
+Inductive cunit :=
+| UAmino (r : arow) (alt : list id) (q : Z)
+| UWater (q : Z)
+| UStrand (r5 : nrow) (mids : list nrow) (r3 : nrow) (q5 : Z) (qmids : list Z) (q3 : Z).
+
+Definition unit_charges (u : cunit) : list Z :=
+  match u with
+  | UAmino _ _ q => [q]
+  | UWater q => [q]
+  | UStrand _ _ _ q5 qmids q3 => (q5 :: qmids ++ [q3])%list
+  end.
+
+(* every residue is in a fully parameterised state of the tables *)
+Definition unit_valid (m : ffmap) (exc : list nat) (arows : list arow) (nrows : list nrow)
+                      (wat : id) (watoms : list id) (u : cunit) : Prop :=
+  match u with
+  | UAmino r alt q => In r arows /\ ~ In (ar_key r) exc /\ In alt (ar_alts r) /\ resolve m (ar_ff r) alt = Some q
+  | UWater q => resolve m wat watoms = Some q
+  | UStrand r5 mids r3 q5 qmids q3 =>
+      In r5 nrows /\ In r3 nrows /\ Forall (fun r => In r nrows /\ is_internal r = true) mids /\
+      is_five r5 = true /\ is_three r3 = true /\ pairable false r5 r3 = true /\
+      In q5 (nrow_charges m r5) /\ In q3 (nrow_charges m r3) /\
+      Forall2 (fun r q => In q (nrow_charges m r)) mids qmids
+  end.
+
+Section Guard.
+  Variable m : ffmap.
+  Variable exc : list nat.
+  Variable arows : list arow.
+  Variable nrows : list nrow.
+  Variable wat : id.
+  Variable watoms : list id.
+  Hypothesis HA : check_arows 0 m exc arows = true.
+  Hypothesis HS : check_strand 0 false m nrows = true.
+  Hypothesis HR : check_round4 m nrows = true.
+  Hypothesis HW : check_water 0 m wat watoms = true.
+
+  Lemma nrow_mult4 : forall r q, In r nrows -> In q (nrow_charges m r) -> q mod 10000 = 0.
+  Proof.
+    intros r q Hr Hq. unfold check_round4 in HR. rewrite forallb_forall in HR. specialize (HR r Hr).
+    rewrite forallb_forall in HR. specialize (HR q Hq). apply Z.eqb_eq in HR. exact HR.
+  Qed.
+
+  Lemma unit_integral : forall u, unit_valid m exc arows nrows wat watoms u ->
+    exists k, zsum (map round4 (unit_charges u)) = k * SCALE.
+  Proof.
+    intros [r alt q|q|r5 mids r3 q5 qmids q3] V; cbn [unit_valid unit_charges] in *.
+    - destruct V as [Hr [Hk [Ha Hq]]].
+      pose proof (state_charge_sound 0 m exc arows HA r Hr Hk alt q Ha Hq) as B.
+      exists (ar_formal r). assert (E : q = ar_formal r * SCALE) by lia. subst q.
+      cbn [map]. rewrite round4_fix; [unfold zsum; cbn [fold_right]; lia|].
+      unfold SCALE. Z.div_mod_to_equations. lia.
+    - exists 0. unfold check_water in HW. rewrite V in HW. apply within_spec in HW.
+      assert (E : q = 0) by lia. subst q. reflexivity.
+    - destruct V as [H5 [H3 [Hm [F5 [F3 [Hp [Hq5 [Hq3 H2]]]]]]]].
+      destruct (strand_charge_exact m nrows HS r5 mids r3 q5 qmids q3 H5 H3 Hm F5 F3 Hp Hq5 Hq3 H2) as [_ E].
+      exists (- Z.of_nat (phosphates (r5 :: mids ++ [r3]))).
+      rewrite round4_map; [exact E|].
+      constructor; [apply (nrow_mult4 r5 q5 H5 Hq5)|]. apply Forall_app. split.
+      + clear - H2 Hm HR. induction H2 as [|r q mids qmids Hq H2 IH]; [constructor|].
+        inversion Hm as [|? ? [Hr _] Hm']; subst. constructor; [apply (nrow_mult4 r q Hr Hq) | apply IH; exact Hm'].
+      + constructor; [apply (nrow_mult4 r3 q3 H3 Hq3) | constructor].
+  Qed.
+
+  Lemma units_integral : forall units, Forall (unit_valid m exc arows nrows wat watoms) units ->
+    exists k, zsum (map round4 (List.concat (map unit_charges units))) = k * SCALE.
+  Proof.
+    intros units H. induction H as [|u units Hu H IH]; [exists 0; reflexivity|].
+    destruct IH as [k1 E1]. destruct (unit_integral u Hu) as [k2 E2].
+    exists (k2 + k1). cbn [map List.concat]. rewrite map_app, zsum_app, E1, E2. lia.
+  Qed.
+
+  (* ALL residue lists whose residues are in fully parameterised table states (in any
+     order): the total handed to noninteger_charge - the sum of the per-residue charges
+     rounded to 4 decimals, in exact decimal arithmetic - is an integer, so the guard of
+     main.non_trivial does not raise; the same holds for any value within the guard's
+     tolerance of that total (float summation error) *)
+  Theorem guard_never_fires : forall units qs,
+    Forall (unit_valid m exc arows nrows wat watoms) units ->
+    Permutation qs (List.concat (map unit_charges units)) ->
+    (exists k, guard_total qs = k * SCALE) /\
+    guard_raises qs = false /\
+    (forall t, Z.abs (t - guard_total qs) <= TOL -> guard_ok t = true).
+  Proof.
+    intros units qs V P. destruct (units_integral units V) as [k E].
+    assert (G : guard_total qs = k * SCALE).
+    { unfold guard_total. rewrite (zsum_perm _ _ (Permutation_map round4 P)). exact E. }
+    split; [exists k; exact G|]. split.
+    - unfold guard_raises. rewrite (guard_ok_near _ k); [reflexivity|]. rewrite G, Z.sub_diag. unfold TOL. cbn. lia.
+    - intros t Ht. apply (guard_ok_near t k). rewrite <- G. exact Ht.
+  Qed.
+End Guard.
+
+(* ---------------------------------------------------------------------- *)
+(* 8. --neutraln / --neutralc shift the charge by exactly one unit (C09)   *)
+
+Lemma base_eqb_refl b : base_eqb b b = true.
+Proof. destruct b; reflexivity. Qed.
+
+Theorem neutral_shift_table : forall m exc rows,
+  check_neutral_shift m exc rows = true ->
+  forall r1 r2 s, In r1 rows -> In r2 rows ->
+    ar_cls r1 = ar_cls r2 -> ar_state r1 = ar_state r2 -> ~ In (ar_key r2) exc ->
+    shift_of (ar_term r1) (ar_term r2) = Some s ->
+    forall q1 q2, In q1 (row_charges m r1) -> In q2 (row_charges m r2) -> q2 = q1 + s * SCALE.
+Proof.
+  intros m exc rows H r1 r2 s H1 H2 Ec Es Hk Hs q1 q2 Hq1 Hq2.
+  unfold check_neutral_shift in H. rewrite forallb_forall in H. specialize (H r1 H1).
+  rewrite forallb_forall in H. specialize (H r2 H2).
+  unfold same_residue in H. rewrite Ec, Es, !base_eqb_refl in H.
+  assert (M : mem_nat (ar_key r2) exc = false).
+  { destruct (mem_nat (ar_key r2) exc) eqn:E; [|reflexivity]. apply mem_nat_In in E. contradiction. }
+  rewrite M, Hs in H. cbn [andb negb] in H.
+  rewrite forallb_forall in H. specialize (H q1 Hq1). rewrite forallb_forall in H. specialize (H q2 Hq2).
+  apply Z.eqb_eq in H. exact H.
+Qed.
+
+Theorem neutral_absent_table : forall m rows,
+  check_neutral_absent m rows = true ->
+  forall r, In r rows -> is_neutral_name (ar_name r) = true ->
+  forall alt a, In alt (ar_alts r) -> In a alt -> lookup m (ar_ff r) a = None.
+Proof.
+  intros m rows H r Hr Hn alt a Ha Hi. unfold check_neutral_absent in H.
+  rewrite forallb_forall in H. specialize (H r Hr). rewrite Hn in H.
+  rewrite forallb_forall in H. specialize (H alt Ha). rewrite forallb_forall in H. specialize (H a Hi).
+  destruct (lookup m (ar_ff r) a); [discriminate H | reflexivity].
+Qed.
+Local Close Scope Z_scope.
